@@ -284,6 +284,12 @@ def process_fn(src: str, src_file: str, it: rustscan.Item, dirs: List[Directive]
                 i += 4; continue
             i += 1
         drops.append('D1 trait impl `%s` -> inherent' % parent.name)
+        st_dir = next((d.arg for d in dirs if d.kind == 'self-type'), None)
+        if st_dir:
+            for i, t in enumerate(st):
+                if t.kind == 'ident' and t.text == 'Self' and not (i + 2 < len(st) and st[i + 1].text == ':' and st[i + 2].text == ':'):
+                    edits.append(Edit(t.start, t.end, st_dir, 'real', 'D1'))
+            drops.append('D1 Self -> %s' % st_dir)
     # --- D7: receiver `&self` / `self: Arc<Self>` -> `&mut self` (interior mutability modelled as ownership)
     if any(d.kind == 'receiver-mut' for d in dirs):
         fi = next(i for i, t in enumerate(st) if t.kind == 'ident' and t.text == 'fn' and i < body_open_i)
@@ -380,6 +386,18 @@ def process_fn(src: str, src_file: str, it: rustscan.Item, dirs: List[Directive]
             text = '\n'.join(d.payload)
             edits.append(Edit(st[bi].end, st[bi].end, '\n' + text + '\n', 'loopbody%d:%s:%d' % (n, info.fn, d.line)))
             info.n_asserts += len(re.findall(r'\bassert\s*\(', text))
+    for d in dirs:
+        if d.kind in ('loopend', 'loopend?'):
+            n = int(d.arg.split()[0])
+            if n > len(loops):
+                if d.kind == 'loopend?':
+                    continue
+                raise Undecided('lost anchor: loop %d of %s (has %d loops)' % (n, info.fn, len(loops)))
+            _, bi = loops[n - 1]
+            ce = match_close(st, bi)
+            text = '\n'.join(d.payload)
+            edits.append(Edit(st[ce].start, st[ce].start, '\n' + text + '\n', 'loopend%d:%s:%d' % (n, info.fn, d.line)))
+            info.n_asserts += len(re.findall(r'\bassert\s*\(', text))
     # --- await invariants
     for d in dirs:
         if d.kind == 'await':
@@ -409,7 +427,7 @@ def process_fn(src: str, src_file: str, it: rustscan.Item, dirs: List[Directive]
     for d in dirs:
         if d.kind in ('hint', 'hint?'):
             text = '\n'.join(d.payload)
-            m = re.match(r'(start|end|before|after)\s*(?:"(.*)")?$', d.arg)
+            m = re.match(r'(start|end|tail|before|after)\s*(?:"(.*)")?$', d.arg)
             if not m:
                 raise Undecided('bad hint directive %r' % d.arg)
             where, pat = m.group(1), m.group(2)
@@ -417,6 +435,22 @@ def process_fn(src: str, src_file: str, it: rustscan.Item, dirs: List[Directive]
                 pos = st[body_open_i].end
             elif where == 'end':
                 pos = st[body_close_i].start
+            elif where == 'tail':
+                # before the tail expression of the body (after the last top-level `;` or `}`)
+                depth = 0
+                q = body_close_i - 1
+                pos = st[body_open_i].end
+                while q > body_open_i:
+                    t = st[q]
+                    if t.text in (')', ']', '}'):
+                        if depth == 0 and t.text == '}' and q != body_close_i - 1:
+                            pos = t.end; break
+                        depth += 1
+                    elif t.text in ('(', '[', '{'):
+                        depth -= 1
+                    elif t.text == ';' and depth == 0:
+                        pos = t.end; break
+                    q -= 1
             else:
                 body_txt = src[st[body_open_i].end:st[body_close_i].start]
                 k = body_txt.find(pat)
